@@ -874,6 +874,13 @@ impl<'j> Sim<'j> {
                     return;
                 }
                 self.client.apply_fs(pre);
+                for a in pre {
+                    if let client::FsAct::AppendWord { path, word } = a {
+                        let id = self.client.added.iter().rev().find(|x| x.word == *word && x.req_id <= -1_000_000).map(|x| x.req_id).unwrap_or(-1_000_000);
+                        self.oracle_state.dict_model.entry(format!("user|{path}")).or_default().push((word.clone(), id));
+                        self.res.count("dictionary_edited_by_hand", 1);
+                    }
+                }
                 self.client.on_send(json, set_settings, self.step);
                 let s = serde_json::to_string(json).unwrap();
                 self.note(&format!("send {s}"));
